@@ -1,9 +1,11 @@
 #!/bin/sh
 # build modelrun from the extracted modules (in $1) and the hand-written driver
 set -e
+HERE=$(cd "$(dirname "$0")" && pwd)
 EX="$1"; OUT="$2"
 EX=$(cd "$EX" && pwd); cd "$EX"
-cp /verif/ocaml/*.ml .
-FILES=$(ocamlfind ocamldep -sort *.mli *.ml)
-ocamlfind ocamlopt -O2 -w -a -package str -linkpkg $FILES -o "$OUT" 2>/dev/null || \
-ocamlfind ocamlopt -w -a -package str -linkpkg $FILES -o "$OUT"
+cp "$HERE"/*.ml .
+# modelrun.ml (the main loop) must be linked last: the per-property modules register themselves
+FILES=$(ocamlfind ocamldep -sort $(ls *.mli *.ml | grep -v '^modelrun.ml$'))
+ocamlfind ocamlopt -O2 -w -a -package str -linkpkg $FILES modelrun.ml -o "$OUT" 2>/dev/null || \
+ocamlfind ocamlopt -w -a -package str -linkpkg $FILES modelrun.ml -o "$OUT"
